@@ -220,7 +220,14 @@ def impl_run(case):
 
     vqe.measure_expectation_statevector = spy
     try:
-        solver = vqe.VQE(ansatz=a, optimizer=opt, initial_state=psi0, measure_method="statevector")
+        psi0_arg = psi0
+        if case.get("reusebuf"):
+            psi0_arg = psi0.copy()           # the caller's work buffer
+        solver = vqe.VQE(ansatz=a, optimizer=opt, initial_state=psi0_arg, measure_method="statevector")
+        if case.get("reusebuf"):
+            # ... which the caller refills (another occupation) after the solver was built: the solver keeps the state it was given
+            psi0_arg[:] = 0.0
+            psi0_arg[(case["basis"] ^ (2 ** L - 1)) if L > 1 else 0] = 1.0
         if case.get("prerun"):
             # the same solver object first runs on the same operator OBJECT in another state (weights halved, an identity shift added),
             # then the operator is changed back in place: the reported energies must belong to the operator as it is now
@@ -665,6 +672,8 @@ def gen_run(tier, rng):
             if start == "random" and L <= 3:
                 yield {"op": "vqe.run", "L": L, "exc": exc, "basis": basis, "t": -1.0, "u": float(rng.choice([0.5, 2.0, 5.0])),
                        "x0": [qstr(v) for v in x0], "method": "COBYLA", "maxiter": 25, "start": start, "prerun": True}
+                yield {"op": "vqe.run", "L": L, "exc": exc, "basis": basis, "t": -1.0, "u": float(rng.choice([0.5, 2.0, 5.0])),
+                       "x0": [qstr(v) for v in x0], "method": "COBYLA", "maxiter": 25, "start": start, "reusebuf": True}
 
 
 def gen_cases(tier, rng):
